@@ -585,6 +585,17 @@ func genTsBatch(g *gen) {
 			}
 			found = true
 			hasPath = tsbMentionsGetenv(ce.Args[0], "PATH")
+			if id, ok := ce.Args[0].(*ast.Ident); ok && !hasPath {
+				// key := <expr> in the same function
+				ast.Inspect(cond.Body, func(m ast.Node) bool {
+					if as, ok := m.(*ast.AssignStmt); ok && len(as.Lhs) == 1 && len(as.Rhs) == 1 {
+						if l, ok := as.Lhs[0].(*ast.Ident); ok && l.Name == id.Name && tsbMentionsGetenv(as.Rhs[0], "PATH") {
+							hasPath = true
+						}
+					}
+					return true
+				})
+			}
 			return false
 		})
 		if !found {
